@@ -731,7 +731,10 @@ class OpGen:
             if y < 0.65:
                 return S.partial_of(w, r, 0.4)
             if y < 0.75 and type(w) is dict:
-                w["__extra__"] = r.choice((1, None, [1], {"k": 1}))     # an undeclared key
+                w["__extra__"] = r.choice((1, None, [1], {"k": 1}))     # undeclared keys
+                if r.random() < 0.6:
+                    w["zz_extra"] = 0
+                    w["another extra"] = "x"
                 return w
             return perturb(w, r)
         if x < 0.72:
